@@ -1292,6 +1292,13 @@ impl Fabrics {
         }
 
         let fabric = self.fabric_mut(fab_idx)?;
+
+        // Check that the new label fits _before_ touching the current one,
+        // so that a refused update leaves the fabric as it was
+        if label.len() > fabric.label.capacity() {
+            return Err(ErrorCode::ConstraintError.into());
+        }
+
         fabric.label.clear();
         fabric
             .label
